@@ -245,6 +245,12 @@ func (s *Sim) evmScenario(hs *EvmStats) error {
 			if r.Intn(12) == 0 {
 				spec.Gas = uint64(21000 + r.Intn(40000)) // often runs out of gas
 			}
+			if spec.Type == 1 && len(name) > 12 && name[:12] == "transfer-to:" && r.Intn(4) == 0 {
+				// admitted by the node (at least the governance minimum) but below the EVM's intrinsic gas:
+				// the reference refuses the message before anything is bought
+				spec.Gas = s.params.MinTrxGas + uint64(r.Intn(100))
+				name += ":below-intrinsic-gas"
+			}
 			if wholeBalance {
 				// the sender spends everything it has: amount = balance - gas limit x price, exactly
 				price, _ := new(big.Int).SetString(spec.GasPrice, 10)
@@ -328,6 +334,19 @@ func (s *Sim) evmScenario(hs *EvmStats) error {
 					hs.Reverted++
 				}
 				ref.RevertToSnapshot(snap)
+				// ... and after the roll-back the native ledger must show what it showed before the transaction:
+				// a message the EVM refuses (intrinsic gas, gas pool) or an execution that fails leaves no debit,
+				// no nonce step and no credit behind
+				for a := range known {
+					acct := ac.FindAccount(a[:], true)
+					nb, nn := new(big.Int), uint64(0)
+					if acct != nil {
+						nb, nn = acct.GetBalance().ToBig(), acct.GetNonce()
+					}
+					if nb.Cmp(ref.GetBalance(a)) != 0 || nn != ref.GetNonce(a) {
+						hs.Mismatches = append(hs.Mismatches, fmt.Sprintf("%s: failed transaction changed account: native balance/nonce %v/%d, before it %v/%d", where, nb, nn, ref.GetBalance(a), ref.GetNonce(a)))
+					}
+				}
 				continue
 			}
 			ref.Finalise(true)
